@@ -79,8 +79,8 @@ class SymCtx(Ctx):
     def assume(self, cond, text=None):
         self.eng.assume(cond, text)
 
-    def prove(self, cond, label, key=None, detail=None):
-        self.eng.prove(cond, label, key=key, detail=detail)
+    def prove(self, cond, label, key=None, detail=None, hard=False):
+        self.eng.prove(cond, label, key=key, detail=detail, hard=hard)
 
     def fail(self, label, key=None, detail=None):
         self.eng.fail(label, key=key, detail=detail)
@@ -154,7 +154,7 @@ class ConcreteCtx(Ctx):
         if not bool(cond):
             raise E.PathAbort()
 
-    def prove(self, cond, label, key=None, detail=None):
+    def prove(self, cond, label, key=None, detail=None, hard=False):
         ok = bool(cond)
         if not ok:
             d = detail() if callable(detail) else detail
